@@ -202,6 +202,14 @@ class InjectedFault(Exception):
     pass
 
 
+class EmptyFault(InjectedFault):
+    """An exception whose truth value is False (an aggregate error raised with no entries): legal, and a trap for
+    code that tests `if error:` instead of `if error is not None:`."""
+
+    def __len__(self):
+        return 0
+
+
 class Ctx(object):
     """State of one simulated run."""
     __slots__ = ('seq', 'g', 'now', 'taps', 'bounds', 'monitor', 'breaches',
@@ -451,7 +459,7 @@ class SourceError(Exception):
     pass
 
 
-def drive_hot(ctx, build, items, end='complete', mk_item=None):
+def drive_hot(ctx, build, items, end='complete', mk_item=None, driver='hot'):
     """Push `items` (already in schedule order) through a Subject feeding the
     pipeline returned by build(subject).  One item = one source event.
     end: 'complete' | 'error' | 'dispose' | 'none'.
@@ -482,9 +490,35 @@ def drive_hot(ctx, build, items, end='complete', mk_item=None):
         with contextlib.redirect_stdout(buf):
             try:
                 ctx.seq = 0
-                obs = build(subject)
-                disp = obs.subscribe(on_next=final.on_next, on_error=final.on_error,
-                                     on_completed=final.on_completed)
+                if driver == 'cold':
+                    # a cold source that pushes every item, and its termination, synchronously *while it is being
+                    # subscribed* (rx.from_ on an ImmediateScheduler, a generator-backed rx.create, ...)
+                    def cold_subscribe(observer, scheduler=None):
+                        for it in items:
+                            ctx.seq += 1
+                            t = it.get('t', ctx.now) if isinstance(it, dict) else ctx.now
+                            if t > ctx.now:
+                                ctx.now = t
+                            observer.on_next(mk_item(it) if mk_item else it)
+                            if sample is not None:
+                                sample()
+                            if final.terminal is not None:
+                                return
+                        ctx.seq += 1
+                        if end == 'error':
+                            observer.on_error(SourceError('source failed'))
+                        elif end != 'none' and end != 'dispose':
+                            observer.on_completed()
+                    obs = build(rx.create(cold_subscribe))
+                    obs.subscribe(on_next=final.on_next, on_error=final.on_error, on_completed=final.on_completed)
+                    items = ()
+                    end = 'none'
+                    ctx.seq -= 1
+                    obs = None
+                else:
+                    obs = build(subject)
+                    disp = obs.subscribe(on_next=final.on_next, on_error=final.on_error,
+                                         on_completed=final.on_completed)
                 for it in items:
                     ctx.seq += 1
                     t = it.get('t', ctx.now) if isinstance(it, dict) else ctx.now
